@@ -241,3 +241,18 @@ SPECS["C20"] = dict(
              params=dict(quick=dict(uuids=2), thorough=dict(uuids=3)), witnesses=["merged", "rejected", "unknown-cluster", "injected-failure", "not-federated"]),
     ],
 )
+
+C18_H = ["federation/c18_get.go", "federation/c19_provider.go"]
+SPECS["C18"] = dict(
+    level="model_checking",
+    outside="more than 2 remotes; the rpc/router layers and JSON; legacy lib/controller fed_collections.go rewriteSignatures; manifests other than the two-stream skeleton (get) / one-locator skeleton with symbolic hint and name characters (rewrite)",
+    assumptions=["MD5 as uninterpreted function with collision-freeness on occurring applications (a tampered manifest of equal length cannot hash like the honest one)",
+                 "remote backends answer {honest manifest, manifest with one byte outside the hints replaced, 404, 5xx, no answer until cancelled} in every completion order; a remote that never answers while nobody succeeds is modelled as a failure (the request would hang until its own context ends)"],
+    runs=[
+        dict(name="rewrite", pkg="lib/controller/federation", pam=True, harness=C18_H, entry="GosymH_C18_rewrite", witnesses=["locator-token", "done"]),
+        dict(name="get-1remote", pkg="lib/controller/federation", pam=True, harness=C18_H, entry="GosymH_C18_get", sched="msgorder", replay="engine",
+             params=dict(quick=dict(remotes=1, tamperpositions=24), thorough=dict(remotes=1, tamperpositions=0)), witnesses=["fetched", "error"]),
+        dict(name="get-2remotes", pkg="lib/controller/federation", pam=True, harness=C18_H, entry="GosymH_C18_get", sched="msgorder", replay="engine",
+             params=dict(quick=dict(remotes=2, tamperpositions=4), thorough=dict(remotes=2, tamperpositions=10)), witnesses=["fetched", "error"]),
+    ],
+)
